@@ -49,7 +49,11 @@ VAR_EXTRA = [[m, None] for m in MODS] + [
     # punctuation that may stand unquoted in an attribute value
     ['missing', 'n\\a'], ['null', '\\'], ['etc', "~!@#$^&*+|/?.,:;'`{}[]<"],
     ['missing', "it's"], ['etc', '%'], ['null', 'a\\b\\'], ['etc', '(('],
-    ['missing', '-'], ['null', '&amp;'], ['etc', ']!['], ['missing', '%(x)s']]
+    ['missing', '-'], ['null', '&amp;'], ['etc', ']!['], ['missing', '%(x)s'],
+    # values that end like the closing delimiters of the three syntaxes
+    ['missing', '/'], ['etc', 'a/'], ['null', 'n/a/'], ['missing', '-'],
+    ['etc', '--'], ['null', 'x-'], ['missing', '['], ['etc', 's'],
+    ['null', '//'], ['missing', '?']]
 IN_EXTRA = [['reverse', None], ['sort', 'va'], ['sort', 'va,xi/cmp/desc'],
             ['size', '2'], ['start', '2'], ['end', '2'], ['orphan', '1'],
             ['overlap', '1'], ['sort_expr', "'va'"],
@@ -349,6 +353,39 @@ def elseblock_cases():
                            family='elseblock:%s:%s:%s' % (kind, a, b))
 
 
+def attrvalue_cases():
+    """Enumerated: every attribute value of the option tables on a single
+    tag, alone and next to a flag, under several styles (so that it is
+    printed quoted and unquoted, first and last)."""
+    for name, val in VAR_EXTRA:
+        if val is None:
+            continue
+        for extra in ([], [['upper', None]], [['html_quote', None],
+                                              ['size', '40']]):
+            for k in range(6):
+                node = dict(k='var', ref=dict(r='name', n='va'),
+                            opts=[[name, val]] + extra)
+                yield dict(ast=[dict(k='text', s='['), node,
+                                dict(k='text', s=']')], picks=[1],
+                           styles=[[k, 1, k + 1, 2, 1], [1, k, 1, k + 2],
+                                   [k + 2, 1, 1, k]],
+                           family='attrvalue:%s=%s' % (name, val))
+    for name, val in IN_EXTRA:
+        if val is None:
+            continue
+        for k in range(4):
+            opts = [[name, val]]
+            if name in ('orphan', 'overlap'):
+                opts.append(['size', '2'])
+            node = dict(k='in', ref=dict(r='name', n='s2'), opts=opts,
+                        body=[dict(k='var', ref=dict(r='name', n='va'),
+                                   opts=[])], eol=['', '', ''],
+                        **{'else': None})
+            yield dict(ast=[node], picks=[1],
+                       styles=[[k, 1, k + 1, 2], [1, k, 1], [k + 2, 1, 1]],
+                       family='attrvalue:in:%s=%s' % (name, val))
+
+
 def strategy():
     from hypothesis import strategies as st
     return st.fixed_dictionaries(dict(
@@ -363,6 +400,7 @@ def plan(tier, seed):
               for i in range(15)]
     shards.append(dict(kind='entities'))
     shards.append(dict(kind='elseblocks'))
+    shards.append(dict(kind='attrvalues'))
     return shards
 
 
@@ -380,10 +418,11 @@ def run_shard(shard):
                     for b, msg in check_entity(list(mods), name):
                         acc.fail(b, case, msg)
         return acc.result()
-    if shard['kind'] == 'elseblocks':
-        for case in elseblock_cases():
+    if shard['kind'] in ('elseblocks', 'attrvalues'):
+        for case in (elseblock_cases() if shard['kind'] == 'elseblocks'
+                     else attrvalue_cases()):
             fails = check(case)
-            acc.case(case, True, klass='elseblock',
+            acc.case(case, True, klass=shard['kind'],
                      distinct_by_construction=True)
             for b, msg in fails:
                 acc.fail(b, case, msg)
